@@ -191,6 +191,36 @@ def selects (sel : Selector) (ri : RunInfo) : Bool :=
     | none => true
     | some ps => ps.all (propMatches ri))
 
+/-! ### the two property columns of `scan_run` and the `DBHandler` calls that write them
+
+`insert_scan_run` leaves `properties_pre` and `properties_post` NULL; `insert_scan_run_properties_pre` writes the first,
+`complete_scan_run` the second (and nothing else).  `UDSScanner.setup` tolerates a failing / skipped write of the
+pre-properties, so a completed run may have `properties_pre IS NULL`.  `json_extract(NULL, '$.k')` is SQL NULL for every key:
+the WHERE clause sees such a run like one whose property object has no keys. -/
+
+/-- `scan_run` as far as the selector is concerned: the ECU the address is assigned to and the two JSON columns (none: SQL NULL) -/
+structure RunCols where
+  ecuName : Option String
+  pre : Option (List (String × JVal)) := none
+  post : Option (List (String × JVal)) := none
+deriving DecidableEq, Repr
+
+/-- the `DBHandler` calls on an inserted scan run -/
+inductive RunCall
+  | insertPre (p : List (String × JVal))     -- `insert_scan_run_properties_pre`
+  | complete (p : List (String × JVal))      -- `complete_scan_run`
+deriving DecidableEq, Repr
+
+def RunCols.apply (rc : RunCols) : RunCall → RunCols
+  | .insertPre p => { rc with pre := some p }
+  | .complete p => { rc with post := some p }
+
+/-- `insert_scan_run` followed by the given calls -/
+def RunCols.after (name : Option String) (calls : List RunCall) : RunCols := calls.foldl RunCols.apply ⟨name, none, none⟩
+
+/-- what the WHERE clause of `respond_after_default` can see of a run: only `properties_pre`; NULL extracts to NULL for every key -/
+def RunCols.info (rc : RunCols) : RunInfo := ⟨rc.ecuName, rc.pre.getD []⟩
+
 /-! ### the `state` column: JSON of `ECUState.__dict__`, matched key by key
 
 `ECU._request` logs `json.dumps(self.state.__dict__)`: for the plain `ECUState` the keys `session` and
